@@ -368,9 +368,9 @@ impl MqttState {
                 "PubAck Pkid = {:?}, reason: {:?}",
                 puback.pkid, puback.reason
             );
-            return Ok(None);
         }
 
+        // the packet id is free again, whatever the reason code
         if let Some(publish) = self.check_collision(puback.pkid) {
             self.outgoing_pub[publish.pkid as usize] = Some(publish.clone());
             self.inflight += 1;
@@ -404,6 +404,21 @@ impl MqttState {
                 "PubRec Pkid = {:?}, reason: {:?}",
                 pubrec.pkid, pubrec.reason
             );
+
+            // the flow ends here (no PUBREL / PUBCOMP will follow): release the window
+            // slot and the packet id
+            self.inflight -= 1;
+            if let Some(publish) = self.check_collision(pubrec.pkid) {
+                self.outgoing_pub[publish.pkid as usize] = Some(publish.clone());
+                self.inflight += 1;
+
+                let event = Event::Outgoing(Outgoing::Publish(publish.pkid));
+                self.events.push_back(event);
+                self.collision_ping_count = 0;
+
+                return Ok(Some(Packet::Publish(publish)));
+            }
+
             return Ok(None);
         }
 
